@@ -24,6 +24,9 @@ CHECKS = {
          'Counts after an AtLeastOnce restart are not judged. The concurrent clause runs under the H2 token scheduler (cfg walrus_verif).', '§5 C15'),
 }
 CHECKS.update({
+ 'C21': ('E8', 'exploration', 'stateful model-based property testing with process restarts (clean exit and SIGKILL after the last acknowledged operation) of octopii\'s WriteAheadLog and WalLogStore',
+         'Layer 1: generated append / restart histories on WriteAheadLog (the only persistence mechanism of the log store and the peer address book); every lifetime opens the store and read_all() must return exactly the acknowledged records. Layer 2: generated Raft-shaped histories (append, truncate, purge, save_vote, save_committed, restarts) on WalLogStore against an in-memory model of the acknowledged operations.',
+         'openraft is replaced by a type-level stand-in (no consensus logic), tokio by the deterministic stand-in executor; the peer-address helpers of node.rs cannot be compiled offline and are covered through the WriteAheadLog they delegate to. Open finding C21-read-all-consumes is probed on every run; while it is open, restarts after the first one are excluded from the main search.', '§5 C21'),
  'C10': ('E2', 'fault_enumeration', 'power-loss state enumeration from an I/O trace (H1): for loss points of generated SyncEach workloads every subset / sampled subsets of the unsynced writes, creations and renames is materialised as a directory and recovered by a fresh process',
          'The traced run records every foreground I/O event with its bytes; for each loss point the directory is rebuilt under the model "explicitly synced data and directory entries are durable, everything else is kept or lost independently", opened and drained; acknowledged appends must be there in order and (StrictlyAtOnce) acknowledged consumption must not be redelivered.',
          'The durability model is the one stated in the property; clean-marker files are not rebuilt. Payloads <= 64 KiB (the trace carries the bytes).', '§5 C10'),
@@ -120,6 +123,7 @@ m = {
  },
  'engines': [
    {'name': 'E1', 'path': 'harness/src/{absop,interp,model}.rs', 'serves_properties': ['C01','C02','C03','C06','C12','C14','C15','C16','C17'], 'kind_free_text': 'sequential model-based search: proptest-generated abstract histories, interpreted against a FIFO reference model, executed in child processes on the real engine'},
+   {'name': 'E8', 'path': 'oct/src/{main,drv}.rs, shims/{openraft,futures,tokio,bincode,octopii}', 'serves_properties': ['C21'], 'kind_free_text': 'octopii wal/mod.rs (with its private Walrus copy) and openraft/storage.rs included unmodified; child process per lifetime; model of the acknowledged log-store state'},
    {'name': 'E7', 'path': 'dist/src/{sim,simdrv}.rs, shims/{tokio,octopii,bincode}', 'serves_properties': ['C22','C23','C24'], 'kind_free_text': 'deterministic cluster simulation: distributed-walrus sources unmodified on a stand-in single-threaded tokio with virtual time and a linearisable stand-in for octopii; one child process per case'},
    {'name': 'E6', 'path': 'dist/src/meta.rs', 'serves_properties': ['C18','C20','C25'], 'kind_free_text': 'in-process checks of distributed-walrus metadata.rs and controller/types.rs (#[path]-included unmodified, compiled against stand-in crates under /verif/shims)'},
    {'name': 'E5', 'path': 'harness/src/props/damage.rs', 'serves_properties': ['C11'], 'kind_free_text': 'directory mutation engine: E1 workload -> clean exit -> generated damage -> fresh process reads everything'},
